@@ -211,8 +211,13 @@ func waitPort(port int, p *proc, max time.Duration) bool {
 		}
 		c, err := net.DialTimeout("tcp", fmt.Sprintf("127.0.0.1:%d", port), 200*time.Millisecond)
 		if err == nil {
+			// a dial to a loopback port nobody listens on yet can connect to itself when the kernel picks the
+			// same ephemeral source port (TCP simultaneous open): that is not the server
+			self := c.LocalAddr().String() == c.RemoteAddr().String()
 			c.Close()
-			return true
+			if !self {
+				return true
+			}
 		}
 		time.Sleep(20 * time.Millisecond)
 	}
@@ -462,27 +467,41 @@ func runScenario(k int, sc scenario) scnObs {
 			}
 			ro.Identity["agent-key-handshake-with-first-key"] = fmt.Sprint(ok)
 		} else {
-			touchTelnet(p.Telnet)
+			portOf := map[string]int{"ssh-simulator": p.SSH, "ftp": p.FTP, "smtp": p.SMTP, "ldap": p.LDAP}
+			readers := map[string]func(int) string{"ssh-simulator": readSSHKey, "ftp": readFTPCert, "smtp": readSMTPCert, "ldap": readLDAPCert}
+			names := map[string]string{"ssh-simulator": "ssh-host-key", "ftp": "ftp-cert", "smtp": "smtp-cert", "ldap": "ldap-cert"}
 			for _, s := range r.Services {
-				switch s {
-				case "ssh-simulator":
-					ro.Identity["ssh-host-key"] = readSSHKey(p.SSH)
-				case "ftp":
-					ro.Identity["ftp-cert"] = readFTPCert(p.FTP)
-				case "smtp":
-					ro.Identity["smtp-cert"] = readSMTPCert(p.SMTP)
-				case "ldap":
-					ro.Identity["ldap-cert"] = readLDAPCert(p.LDAP)
+				rd := readers[s]
+				if rd == nil {
+					continue
 				}
+				// the listener opens its ports one after the other: wait for this one too, and read again
+				// if the first read raced the start-up
+				waitPort(portOf[s], pr, 10*time.Second)
+				v := ""
+				for try := 0; try < 3 && v == ""; try++ {
+					if try > 0 {
+						time.Sleep(300 * time.Millisecond)
+					}
+					v = rd(portOf[s])
+				}
+				ro.Identity[names[s]] = v
 			}
-			// events reach the file after the channel's one-second flush
-			deadline := time.Now().Add(6 * time.Second)
-			for time.Now().Before(deadline) {
-				ts, _ := tokensIn(filepath.Join(dir, "events.log"), skip)
-				if len(ts) > 0 {
+			// events reach the file after the channel's one-second flush; touch the telnet service until
+			// this run's events show up (bounded: 5 rounds of 4 s)
+			for round := 0; round < 5; round++ {
+				touchTelnet(p.Telnet)
+				found := false
+				for w := 0; w < 40 && !found; w++ {
+					ts, _ := tokensIn(filepath.Join(dir, "events.log"), skip)
+					found = len(ts) > 0
+					if !found {
+						time.Sleep(100 * time.Millisecond)
+					}
+				}
+				if found {
 					break
 				}
-				time.Sleep(100 * time.Millisecond)
 			}
 			ts, n := tokensIn(filepath.Join(dir, "events.log"), skip)
 			skip = n
@@ -494,6 +513,19 @@ func runScenario(k int, sc scenario) scnObs {
 				}
 			}
 			sort.Strings(ro.Tokens)
+			if len(ro.Tokens) == 0 {
+				// diagnostics for the oracle's "no token" rule
+				st, _ := os.Stat(filepath.Join(dir, "events.log"))
+				var size int64 = -1
+				if st != nil {
+					size = st.Size()
+				}
+				b, _ := os.ReadFile(pr.out)
+				if len(b) > 500 {
+					b = b[len(b)-500:]
+				}
+				ro.Tail = fmt.Sprintf("alive=%v events.log=%d bytes lines-skipped=%d lines-now=%d stdout-tail=%q", !pr.exited(), size, skip, n, string(b))
+			}
 		}
 		tf, _ := os.ReadFile(filepath.Join(dir, "data", "token"))
 		ro.TokenFile = string(tf)
@@ -594,7 +626,7 @@ func (prop) Judge(b core.Batch, recs []core.Rec, exits []core.Exit) []core.Resul
 			if sc.Kind != "agent" {
 				switch {
 				case len(ro.Tokens) == 0:
-					fail("no-token-in-events|"+stateClass, fmt.Sprintf("run %d produced no event line with a token within 6 s", i))
+					fail("no-token-in-events|"+stateClass, fmt.Sprintf("run %d produced no event line with a token within 20 s and five telnet sessions (%s)", i, clip(ro.Tail)))
 				case len(ro.Tokens) > 1:
 					fail("several-tokens-in-one-run", fmt.Sprintf("run %d: events carry tokens %v", i, ro.Tokens))
 				default:
